@@ -23,6 +23,9 @@ func genC14Grammar(seed int) *gram.Grammar {
 			NameElided: rapid.IntRange(0, 5).Draw(t, "named") == 0}
 		return gram.GenGrammar(t, o)
 	})
+	if seed%40 == 7 {
+		return gram.ChainGrammar(17 + seed%23) // more productions than any fixed-size table of the printer
+	}
 	return g.Example(seed)
 }
 
